@@ -93,6 +93,15 @@ Theorem C17_tolerance_only_call : forall fexp cf o t,
 Proof. exact apply_tol_only. Qed.
 Theorem C17_call_idempotent : forall fexp cf o, apply_op fexp (apply_op fexp cf o) o = apply_op fexp cf o.
 Proof. exact apply_idem. Qed.
+Theorem C17_name_only_equals_ctor_with_kept_tolerance : forall fexp cf thr bf n t0,
+  crit_tolerance (c_crit cf) = Some t0 ->
+  option_map c_crit (Config.set_merge fexp None cf (AName n) None None None) =
+  option_map c_crit (Config.ctor fexp None thr bf (AName n) (Some t0)).
+Proof. exact set_merge_name_is_ctor_with_kept_tol. Qed.
+Theorem C17_full_set_merge_equals_ctor : forall fexp cf thr bf a t, a <> ANone ->
+  Config.set_merge fexp None cf a (match a with AObj _ => None | _ => Some t end) (Some thr) (Some bf) =
+  Config.ctor fexp None thr bf a (match a with AObj _ => None | _ => Some t end).
+Proof. exact full_set_merge_is_ctor. Qed.
 Example C17_seq_nonvacuous :
   let f := fun _ : float => 0.5%float in
   let cf := mkCfg (CTolDiameter 0.2 tol_decay (tol_offset f)) 0.65 50 in
